@@ -1246,48 +1246,68 @@ func (a *a2) spliceEmptySafe() bool {
 	if fn == nil || fn.Blocks == nil || len(fn.Params) < 3 {
 		return false
 	}
+	fn = a.p.View(fn, "", nil)
 	dstP, oP := fn.Params[1], fn.Params[2]
 	commas := 0
 	ok := true
-	eachInstr(fn, func(b *ssa.BasicBlock, i int, in ssa.Instruction) {
-		c, isCall := in.(*ssa.Call)
-		if !isCall || builtinName(&c.Call) != "append" || len(c.Call.Args) < 2 {
-			return
+	isLenOf := func(v ssa.Value, p ssa.Value) bool {
+		cc, ok := v.(*ssa.Call)
+		return ok && builtinName(&cc.Call) == "len" && cc.Call.Args[0] == p
+	}
+	// len(o[1:]): what is left of the spliced object after its opening brace
+	isLenOfRest := func(v ssa.Value) bool {
+		cc, ok := v.(*ssa.Call)
+		if !ok || builtinName(&cc.Call) != "len" {
+			return false
 		}
-		if !appendsConstByte(c, ',') {
-			return
+		sl, ok := cc.Call.Args[0].(*ssa.Slice)
+		if !ok || sl.X != ssa.Value(oP) || sl.High != nil {
+			return false
 		}
-		commas++
-		cs := necessaryCmps(fn, c)
-		isLenOf := func(v ssa.Value, p ssa.Value) bool {
-			cc, ok := v.(*ssa.Call)
-			return ok && builtinName(&cc.Call) == "len" && cc.Call.Args[0] == p
-		}
-		oNonEmpty := hasCmp(cs, func(op token.Token, x, y ssa.Value) bool {
-			n, isN := constInt(y)
-			if isN && isLenOf(x, oP) {
-				return (op == token.NEQ && n == 1) || (op == token.GTR && n >= 1) || (op == token.GEQ && n >= 2)
+		lo, isLo := constInt(sl.Low)
+		return isLo && lo == 1
+	}
+	paths, complete := enumPaths(fn, 1, 2000)
+	if !complete {
+		ok = false
+	}
+	for _, pa := range paths {
+		for _, in := range pa.Instrs() {
+			c, isCall := in.(*ssa.Call)
+			if !isCall || builtinName(&c.Call) != "append" || len(c.Call.Args) < 2 || !appendsConstByte(c, ',') {
+				continue
 			}
-			// o[0] != '{'
-			if isN && n == '{' && op == token.NEQ {
-				if u, ok := x.(*ssa.UnOp); ok && u.Op == token.MUL {
-					if ia, ok := u.X.(*ssa.IndexAddr); ok && ia.X == ssa.Value(oP) {
-						if k, ok := constInt(ia.Index); ok && k == 0 {
-							return true
+			commas++
+			cs := pa.Cmps()
+			oNonEmpty := hasCmp(cs, func(op token.Token, x, y ssa.Value) bool {
+				n, isN := constInt(y)
+				if isN && isLenOf(x, oP) {
+					return (op == token.NEQ && n == 1) || (op == token.GTR && n >= 1) || (op == token.GEQ && n >= 2)
+				}
+				if isN && isLenOfRest(x) {
+					return (op == token.NEQ && n == 0) || (op == token.GTR && n >= 0) || (op == token.GEQ && n >= 1)
+				}
+				// o[0] != '{'
+				if isN && n == '{' && op == token.NEQ {
+					if u, ok := x.(*ssa.UnOp); ok && u.Op == token.MUL {
+						if ia, ok := u.X.(*ssa.IndexAddr); ok && ia.X == ssa.Value(oP) {
+							if k, ok := constInt(ia.Index); ok && k == 0 {
+								return true
+							}
 						}
 					}
 				}
+				return false
+			})
+			dstNonBare := hasCmp(cs, func(op token.Token, x, y ssa.Value) bool {
+				n, isN := constInt(y)
+				return isN && isLenOf(x, dstP) && ((op == token.GTR && n >= 1) || (op == token.GEQ && n >= 2))
+			})
+			if !oNonEmpty || !dstNonBare {
+				ok = false
 			}
-			return false
-		})
-		dstNonBare := hasCmp(cs, func(op token.Token, x, y ssa.Value) bool {
-			n, isN := constInt(y)
-			return isN && isLenOf(x, dstP) && ((op == token.GTR && n >= 1) || (op == token.GEQ && n >= 2))
-		})
-		if !oNonEmpty || !dstNonBare {
-			ok = false
 		}
-	})
+	}
 	if ok {
 		a.spliceSafe = 1
 	}
